@@ -18,7 +18,8 @@ class PROP(Prop):
     profiles = ["debug"]
     rule = ("requests of every variant incl. raw custom requests with every function code < 0x80; replies with every function / exception "
             "function byte, transaction ids (all low bytes; all 65536 in thorough), every unit/slave id, normal and exception, after random "
-            "histories of earlier calls and set_slave; TCP and RTU.  Oracle: success => same header and numerically same function code; "
+            "histories of earlier calls and set_slave, and after 65534..65536 earlier calls (request ids around the 16-bit wrap, answered under the "
+            "same and the neighbouring ids); TCP and RTU.  Oracle: success => same header and numerically same function code; "
             "different header => header-mismatch error carrying the decoded reply; same header, other code => function-code-mismatch "
             "carrying it.  non-trivial = header or function code differs from the request")
 
@@ -44,6 +45,21 @@ class PROP(Prop):
                 self.one(cs, rng, proto, req, reply_fc=rng.choice([None, None, rng.randrange(256)]),
                          dtid=rng.choice([0, 0, 1, 0xFFFF, rng.randrange(65536)]), duid=rng.choice([0, 0, 1, rng.randrange(256)]),
                          history=rng.randrange(0, 4))
+        # at the wrap of the 16-bit transaction id: request ids 0xFFFE, 0xFFFF, 0x0000 (after 65534 / 65535 / 65536 earlier calls),
+        # answered under the same id and under the neighbouring ids 0, 0xFFFF, id-1, id+1
+        cheap = cligen.call_op(("RHR", 1, 1), R="e:Other")
+        wrap = []
+        for n in (65534, 65535, 65536) if tier == "thorough" else (65535, 65536):
+            tid = n & 0xFFFF
+            for rtid in sorted({tid, 0, 0xFFFF, (tid + 1) & 0xFFFF, (tid - 1) & 0xFFFF}):
+                slave = rng.randrange(256)
+                pdu = mb.spec_rsp_pdu(("RHR", [rng.randrange(65536)])) if rng.random() < 0.7 else cligen.exc_pdu(3, 2)
+                fr = cligen.frame("tcp", rtid, slave, pdu)
+                line = cligen.cli_line("tcp", slave, [cheap] * n + [cligen.call_op(("RHR", 9, 1), R="d" + fr.hex())])
+                wrap.append(Case(line, {"hdr_eq": rtid == tid, "req_fc": 3, "rsp_fc": 3, "exc": pdu[0] >= 0x80, "rr": decoded_rr(pdu), "n": n + 1, "wrap": True}))
+        step = max(1, len(cs) // (len(wrap) + 1))
+        for i, w in enumerate(wrap):        # spread the long histories evenly over the shards
+            cs.insert(min(len(cs), (i + 1) * step + i), w)
         return cs
 
     def one(self, cs, rng, proto, req, reply_fc=None, dtid=0, duid=0, tid_abs=None, uid_abs=None, history=0):
